@@ -8,7 +8,7 @@ pub fn run_property(ctx: &Ctx) -> Option<Report> {
     let r = match ctx.prop.as_str() {
         "C06" => {
             let mut r = Report::new(
-                "cases = operation sequences on one node's own namespace (exhaustive up to the stated length over a 16-op alphabet, then random to length 40, then a two-node replica variant); \
+                "cases = operation sequences on one node's own namespace (exhaustive up to the stated length over a 16-op alphabet, then random to length 40 under grace periods of 10 s / 1.5 s / 0.4 s / 2.000000001 s / 1 ns / 0, then a two-node replica variant with handshakes, replica GC and replica catch-up; plus cluster histories in which every marked entry a node has held for a full grace period must not survive a GC pass); \
                  non-trivial = the sequence contains a GC pass that collected something while a younger marked entry survived, or a set/delete of an already marked key, or (replica) a reset or replica-side collection; distinct = by op sequence",
             );
             r.assume("keys/values from small alphabets incl. empty and multi-byte; grace period 10 s; virtual clock");
@@ -21,7 +21,7 @@ pub fn run_property(ctx: &Ctx) -> Option<Report> {
         }
         "C15" => {
             let mut r = Report::new(
-                "cases = (subscription set, event history) on an owner and a replica: every key of length <= 3 over {a,b,é,😀} set locally then gossiped, under pseudo-random subscription sets, plus random histories (set/ttl/delete/gossip/stale redelivery/owner GC/drop/late subscribe); \
+                "cases = (subscription set, event history) on an owner and a replica: every key of length <= 3 over {a,b,é,😀} set locally then gossiped, under pseudo-random subscription sets, plus random histories (set/ttl/delete/gossip/stale redelivery/owner GC/drop/late subscribe/external catch-up), plus a harness-scheduled two-thread case (a handle dropped while another thread is inside a dispatch); \
                  non-trivial = a written key starts with a multi-byte character, or >= 2 active matching subscriptions of different prefix lengths, or a handle was dropped mid-history; distinct = by case",
             );
             r.assume("a set to the same value with a different status (plain vs TTL) may or may not notify; re-delivery of identical entries after a reset may or may not notify");
@@ -41,7 +41,7 @@ pub fn run_property(ctx: &Ctx) -> Option<Report> {
         }
         "C07" => {
             let mut r = Report::new(
-                "cases = (sender state built on a real node: own namespace via the API, 0..40 other members via honest-form messages; peer digest relative to that state; size budgets) and boundary-directed cases (own namespace sized by binary search so that the reply lands on the datagram limit, then swept byte by byte);                  non-trivial = a reply was truncated (some owed entry omitted) or contained a block stored uncompressed, or the case is a boundary sweep; distinct = by case",
+                "cases = (sender state built on a real node: own namespace via the API, 0..40 other members via honest-form messages; peer digest relative to that state; size budgets) boundary-directed cases (own namespace sized by binary search so that the reply lands on the datagram limit, then swept byte by byte; optionally with members unknown to the sender in the SYN and a trailing max-version-only member), and many-keys cases (up to 100,000 tiny key-values with an early tombstone whose key sorts last);                  non-trivial = a reply was truncated (some owed entry omitted) or contained a block stored uncompressed, or the case is a boundary sweep; distinct = by case",
             );
             r.assume("strings are at most 65,535 bytes; the sender's own digest leaves at least 100 bytes");
             r.assume("the reply is decoded by the independent decoder and compared with the sender's copies read through the public API");
@@ -160,7 +160,7 @@ pub fn run_property(ctx: &Ctx) -> Option<Report> {
         }
         "C19" => {
             let mut r = Report::new(
-                "cases = scripts of up to 12 events over {next sends succeed / fail with 'message too long' or 'unreachable', valid SYN / foreign SYN / SYN-ACK / ACK / BadCluster arrives, virtual delay, user lock acquisition, user gossip request, fatal recv error, panic in recv, shutdown} against spawn_chitchat on a scripted in-process transport with the paused clock driving the gossip ticks; plus a loopback UDP smoke (garbage, truncated, bit-flipped and 65,507-byte datagrams on the real transport);                  non-trivial = script with a send error followed by a later successful exchange, or a fatal event; distinct = by script",
+                "cases = scripts of up to 12 events over {next sends succeed / fail with 'message too long' or 'unreachable', valid SYN / foreign SYN / SYN-ACK / ACK / BadCluster arrives, virtual delay, user lock acquisition, user holding the lock, user gossip request, gossip-then-shutdown, a reply or tick send held back by the transport (the user must get the lock meanwhile), sustained inbound traffic on a slow transport (rounds must go on), fatal recv error, panic in recv, shutdown} against spawn_chitchat on a scripted in-process transport with the paused clock driving the gossip ticks; plus a loopback UDP smoke (garbage, truncated, bit-flipped and 65,507-byte datagrams on the real transport);                  non-trivial = script with a send error followed by a later successful exchange, or a fatal event; distinct = by script",
             );
             r.assume("single-threaded paused runtime: the schedule is a function of the script; genuinely parallel interleavings of the tokio mutex are not explored");
             r.assume("a virtual-time timeout of 1 h means deadlock/stall (deterministic); real-time timeouts in the UDP smoke are inconclusive, never a violation");
